@@ -125,6 +125,14 @@ func Or(a, b bool, more ...bool) bool {
 
 func Implies(a, b bool) bool { return !a || b }
 
+// ParamOr: a harness parameter with a default.
+func (t *T) ParamOr(name string, def int) int {
+	if v, ok := t.Params[name]; ok {
+		return v
+	}
+	return def
+}
+
 // Choice is an ENUMERATED dimension: the engine forks one path per value.
 func (t *T) Choice(name string, n int) int {
 	v := t.pop()
